@@ -263,6 +263,118 @@ theorem hasTomb_blank (k : List Point) (hk : ∀ p ∈ k, p.key ≠ []) : hasTom
 
 theorem idUnique_sublist {a b : List Point} (h : a.Sublist b) (hu : IdUnique b) : IdUnique a := List.Pairwise.sublist h hu
 
+/-- `SendNode` of a node unknown to the store, given only what the points sent amount to once the store has normalised
+    them: the node rows `ps`, the edge rows `E` (the node type aside) -/
+theorem sendNode_core (st : St) (n : NodeRec) (ps E : List Point) (now : Int)
+    (hrows : ((n.pts.map (stamp now)).map normPoint) = ps)
+    (hnan : (n.pts.map (stamp now)).any (fun p => isNaN p.value) = false) (hpu : IdUnique ps)
+    (hsent : ((n.epts.map (stamp now) ++ (if hasTomb n.epts then [] else [({ type := tombstoneT, time := now } : Point)]) ++
+      [({ type := nodeTypeT, text := n.typ, time := now } : Point)]).map normPoint) =
+      E ++ [({ type := nodeTypeT, key := zeroKey, text := n.typ, time := now } : Point)])
+    (hsnt : ∀ a ∈ E, a.type ≠ nodeTypeT)
+    (hsu : IdUnique (E ++ [({ type := nodeTypeT, key := zeroKey, text := n.typ, time := now } : Point)]))
+    (hnan2 : (n.epts.map (stamp now) ++ (if hasTomb n.epts then [] else [({ type := tombstoneT, time := now } : Point)]) ++
+      [({ type := nodeTypeT, text := n.typ, time := now } : Point)]).any (fun p => isNaN p.value) = false)
+    (hf : Fresh st n.id) (hid : n.id ≠ [])
+    (hp : n.parent ≠ [] ∧ n.parent ≠ noneS ∧ n.parent ≠ rootS ∧ n.parent ≠ n.id) (ht : n.typ ≠ []) :
+    ∃ st', sendNode st n now = .ok st' ∧
+      st'.edges.map shape = st.edges.map shape ++ [(n.parent, n.id, n.typ)] ∧
+      (∀ y, ptsOf st' y = if y = n.id then ps else ptsOf st y) ∧
+      (∀ u d, eptsOf st' u d = if (u, d) = (n.parent, n.id) then E else eptsOf st u d) ∧
+      st'.root = st.root := by
+  obtain ⟨hp1, hp2, hp3, hp4⟩ := hp
+  have hbump : ∀ δ, bump (2 ^ st.edges.length) st.edges n.id δ = st.edges :=
+    fun δ => bump_no_parent _ _ _ _ (fun e he => (hf.edges e he).2)
+  have hnp : nodePoints st n.id (n.pts.map (stamp now)) =
+      .ok { st with nodePts := st.nodePts.filter (fun r => r.1 != n.id) ++ ps.map (fun p => (n.id, p)), edges := st.edges } := by
+    unfold nodePoints
+    rw [if_neg (by rw [hnan]; simp), hrows, collapse_idUnique ps hpu, hf.pts]
+    simp only [hbump]
+    rw [mergeBatch_fresh ps [] (fun _ _ q hq => absurd hq List.not_mem_nil) hpu]
+    rfl
+  have hf1 : (E ++ [({ type := nodeTypeT, key := zeroKey, text := n.typ, time := now } : Point)]).filter
+      (fun p => p.type == nodeTypeT) = [({ type := nodeTypeT, key := zeroKey, text := n.typ, time := now } : Point)] := by
+    rw [List.filter_append]
+    have : (E).filter (fun p => p.type == nodeTypeT) = [] := by
+      rw [List.filter_eq_nil_iff]; intro a ha; simpa using hsnt a ha
+    rw [this]; simp
+  have hf2 : (E ++ [({ type := nodeTypeT, key := zeroKey, text := n.typ, time := now } : Point)]).filter
+      (fun p => p.type != nodeTypeT) = E := by
+    rw [List.filter_append]
+    have : (E).filter (fun p => p.type != nodeTypeT) = E := by
+      rw [List.filter_eq_self]; intro a ha; simpa using hsnt a ha
+    rw [this]; simp
+  have hfind : st.edges.find? (fun e => e.up == n.parent && e.down == n.id) = none := by
+    rw [List.find?_eq_none]
+    intro e he
+    have := (hf.edges e he).2
+    simp [this]
+  have hcyc : (ancestors (2 ^ st.edges.length) st.edges n.parent).contains n.id = false := by
+    cases hc : (ancestors (2 ^ st.edges.length) st.edges n.parent).contains n.id with
+    | false => rfl
+    | true =>
+      exfalso
+      have hm : n.id ∈ ancestors (2 ^ st.edges.length) st.edges n.parent := by simpa using hc
+      rcases reach_up _ _ _ (ancestors_sound st.edges _ _ _ hm) with h | ⟨k, hk, hk1⟩
+      · exact hp4 h.symm
+      · simp only [keysOf, List.mem_map] at hk
+        obtain ⟨e, he, rfl⟩ := hk
+        exact (hf.edges e he).1 hk1
+  have hte : n.typ.isEmpty = false := by
+    cases hc : n.typ with
+    | nil => exact absurd hc ht
+    | cons _ _ => rfl
+  have hpe : n.parent.isEmpty = false := by
+    cases hc : n.parent with
+    | nil => exact absurd hc hp1
+    | cons _ _ => rfl
+  have hie : n.id.isEmpty = false := by
+    cases hc : n.id with
+    | nil => exact absurd hc hid
+    | cons _ _ => rfl
+  refine ⟨edgeInsert { st with nodePts := st.nodePts.filter (fun r => r.1 != n.id) ++ ps.map (fun p => (n.id, p)), edges := st.edges }
+    n.parent n.id n.typ (E), ?_, ?_, ?_, ?_, ?_⟩
+  · unfold sendNode
+    simp only []
+    rw [if_neg hid, if_neg (by intro h; rcases h with h | h; exact hp1 h; exact hp2 h)]
+    show (match nodePoints st n.id (n.pts.map (stamp now)) with
+      | .ok st1 => edgePoints st1 n.id n.parent (n.epts.map (stamp now) ++ (if hasTomb n.epts then [] else [({ type := tombstoneT, time := now } : Point)]) ++
+          [({ type := nodeTypeT, text := n.typ, time := now } : Point)])
+      | e => e) = _
+    rw [hnp]
+    simp only []
+    unfold edgePoints
+    rw [if_neg (fun h => hp4 h.symm), if_neg (fun h => hf.root h.1), if_neg (by rw [hnan2]; simp)]
+    simp only [hpe, Bool.false_eq_true, if_false]
+    unfold edgePointsCore
+    simp only [hsent, collapse_idUnique _ hsu, hf1, hf2, hfind, List.getLast?_singleton, Option.map_some, Option.getD_some, hte,
+      Bool.false_eq_true, if_false, hcyc]
+  · simp only [edgeInsert]
+    rw [bump_shape, List.map_append]
+    rfl
+  · intro y
+    have : ptsOf (edgeInsert { st with nodePts := st.nodePts.filter (fun r => r.1 != n.id) ++ ps.map (fun p => (n.id, p)), edges := st.edges }
+        n.parent n.id n.typ (E)) y =
+        ptsOf { st with nodePts := st.nodePts.filter (fun r => r.1 != n.id) ++ ps.map (fun p => (n.id, p)), edges := st.edges } y := rfl
+    rw [this, ptsOf_write]
+  · intro u d
+    have hsE : IdUnique (E) := by
+      unfold IdUnique at hsu
+      rw [List.pairwise_append] at hsu
+      exact hsu.1
+    have hmb : (mergeBatch [] (E)).1 = E := by
+      rw [mergeBatch_fresh _ [] (fun _ _ q hq => absurd hq List.not_mem_nil) hsE]; rfl
+    rw [eptsOf_append st _ (n.parent, n.id) (E) u d (by simp only [edgeInsert, hmb])]
+    by_cases hk : (u, d) = (n.parent, n.id)
+    · rw [if_pos hk, if_pos hk]
+      injection hk with h1 h2
+      subst h1; subst h2
+      rw [hf.epts]; rfl
+    · rw [if_neg hk, if_neg hk]; simp
+  · simp only [edgeInsert]
+    rw [if_neg hp3]
+
+
 theorem sendNode_fresh (st : St) (n : NodeRec) (ps eps : List Point) (now : Int)
     (hex : Exported n ps eps) (hf : Fresh st n.id) (hid : n.id ≠ [])
     (hp : n.parent ≠ [] ∧ n.parent ≠ noneS ∧ n.parent ≠ rootS ∧ n.parent ≠ n.id) (ht : n.typ ≠ []) :
@@ -271,19 +383,9 @@ theorem sendNode_fresh (st : St) (n : NodeRec) (ps eps : List Point) (now : Int)
       (∀ y, ptsOf st' y = if y = n.id then ps else ptsOf st y) ∧
       (∀ u d, eptsOf st' u d = if (u, d) = (n.parent, n.id) then storedE eps now else eptsOf st u d) ∧
       st'.root = st.root := by
-  obtain ⟨hp1, hp2, hp3, hp4⟩ := hp
   -- the node points
   have hrows : ((n.pts.map (stamp now)).map normPoint) = ps := by rw [hex.pts]; exact rows_back now ps hex.pok
   have hnan : (n.pts.map (stamp now)).any (fun p => isNaN p.value) = false := by rw [hex.pts]; exact rows_no_nan now ps hex.pok
-  have hbump : ∀ δ, bump (2 ^ st.edges.length) st.edges n.id δ = st.edges :=
-    fun δ => bump_no_parent _ _ _ _ (fun e he => (hf.edges e he).2)
-  have hnp : nodePoints st n.id (n.pts.map (stamp now)) =
-      .ok { st with nodePts := st.nodePts.filter (fun r => r.1 != n.id) ++ ps.map (fun p => (n.id, p)), edges := st.edges } := by
-    unfold nodePoints
-    rw [if_neg (by rw [hnan]; simp), hrows, collapse_idUnique ps hex.pu, hf.pts]
-    simp only [hbump]
-    rw [mergeBatch_fresh ps [] (fun _ _ q hq => absurd hq List.not_mem_nil) hex.pu]
-    rfl
   -- the edge points
   have hK : n.epts = (eps.filter keepE).map blankKey := by rw [hex.epts, exportEdgePts_eq]
   have hKok : ∀ p ∈ eps.filter keepE, RowOk p := fun p hp => (hex.eok p (List.mem_filter.mp hp).1).1
@@ -339,87 +441,7 @@ theorem sendNode_fresh (st : St) (n : NodeRec) (ps eps : List Point) (now : Int)
     · split
       · rfl
       · simp only [List.any_cons, List.any_nil, Bool.or_false]; decide
-  have hf1 : (storedE eps now ++ [({ type := nodeTypeT, key := zeroKey, text := n.typ, time := now } : Point)]).filter
-      (fun p => p.type == nodeTypeT) = [({ type := nodeTypeT, key := zeroKey, text := n.typ, time := now } : Point)] := by
-    rw [List.filter_append]
-    have : (storedE eps now).filter (fun p => p.type == nodeTypeT) = [] := by
-      rw [List.filter_eq_nil_iff]; intro a ha; simpa using hsnt a ha
-    rw [this]; simp
-  have hf2 : (storedE eps now ++ [({ type := nodeTypeT, key := zeroKey, text := n.typ, time := now } : Point)]).filter
-      (fun p => p.type != nodeTypeT) = storedE eps now := by
-    rw [List.filter_append]
-    have : (storedE eps now).filter (fun p => p.type != nodeTypeT) = storedE eps now := by
-      rw [List.filter_eq_self]; intro a ha; simpa using hsnt a ha
-    rw [this]; simp
-  have hfind : st.edges.find? (fun e => e.up == n.parent && e.down == n.id) = none := by
-    rw [List.find?_eq_none]
-    intro e he
-    have := (hf.edges e he).2
-    simp [this]
-  have hcyc : (ancestors (2 ^ st.edges.length) st.edges n.parent).contains n.id = false := by
-    cases hc : (ancestors (2 ^ st.edges.length) st.edges n.parent).contains n.id with
-    | false => rfl
-    | true =>
-      exfalso
-      have hm : n.id ∈ ancestors (2 ^ st.edges.length) st.edges n.parent := by simpa using hc
-      rcases reach_up _ _ _ (ancestors_sound st.edges _ _ _ hm) with h | ⟨k, hk, hk1⟩
-      · exact hp4 h.symm
-      · simp only [keysOf, List.mem_map] at hk
-        obtain ⟨e, he, rfl⟩ := hk
-        exact (hf.edges e he).1 hk1
-  have hte : n.typ.isEmpty = false := by
-    cases hc : n.typ with
-    | nil => exact absurd hc ht
-    | cons _ _ => rfl
-  have hpe : n.parent.isEmpty = false := by
-    cases hc : n.parent with
-    | nil => exact absurd hc hp1
-    | cons _ _ => rfl
-  have hie : n.id.isEmpty = false := by
-    cases hc : n.id with
-    | nil => exact absurd hc hid
-    | cons _ _ => rfl
-  refine ⟨edgeInsert { st with nodePts := st.nodePts.filter (fun r => r.1 != n.id) ++ ps.map (fun p => (n.id, p)), edges := st.edges }
-    n.parent n.id n.typ (storedE eps now), ?_, ?_, ?_, ?_, ?_⟩
-  · unfold sendNode
-    simp only []
-    rw [if_neg hid, if_neg (by intro h; rcases h with h | h; exact hp1 h; exact hp2 h)]
-    show (match nodePoints st n.id (n.pts.map (stamp now)) with
-      | .ok st1 => edgePoints st1 n.id n.parent (n.epts.map (stamp now) ++ (if hasTomb n.epts then [] else [({ type := tombstoneT, time := now } : Point)]) ++
-          [({ type := nodeTypeT, text := n.typ, time := now } : Point)])
-      | e => e) = _
-    rw [hnp]
-    simp only []
-    unfold edgePoints
-    rw [if_neg (fun h => hp4 h.symm), if_neg (fun h => hf.root h.1), if_neg (by rw [hnan2]; simp)]
-    simp only [hpe, Bool.false_eq_true, if_false]
-    unfold edgePointsCore
-    simp only [hsent, collapse_idUnique _ hsu, hf1, hf2, hfind, List.getLast?_singleton, Option.map_some, Option.getD_some, hte,
-      Bool.false_eq_true, if_false, hcyc]
-  · simp only [edgeInsert]
-    rw [bump_shape, List.map_append]
-    rfl
-  · intro y
-    have : ptsOf (edgeInsert { st with nodePts := st.nodePts.filter (fun r => r.1 != n.id) ++ ps.map (fun p => (n.id, p)), edges := st.edges }
-        n.parent n.id n.typ (storedE eps now)) y =
-        ptsOf { st with nodePts := st.nodePts.filter (fun r => r.1 != n.id) ++ ps.map (fun p => (n.id, p)), edges := st.edges } y := rfl
-    rw [this, ptsOf_write]
-  · intro u d
-    have hsE : IdUnique (storedE eps now) := by
-      unfold IdUnique at hsu
-      rw [List.pairwise_append] at hsu
-      exact hsu.1
-    have hmb : (mergeBatch [] (storedE eps now)).1 = storedE eps now := by
-      rw [mergeBatch_fresh _ [] (fun _ _ q hq => absurd hq List.not_mem_nil) hsE]; rfl
-    rw [eptsOf_append st _ (n.parent, n.id) (storedE eps now) u d (by simp only [edgeInsert, hmb])]
-    by_cases hk : (u, d) = (n.parent, n.id)
-    · rw [if_pos hk, if_pos hk]
-      injection hk with h1 h2
-      subst h1; subst h2
-      rw [hf.epts]; rfl
-    · rw [if_neg hk, if_neg hk]; simp
-  · simp only [edgeInsert]
-    rw [if_neg hp3]
+  exact sendNode_core st n ps (storedE eps now) now hrows hnan hex.pu hsent hsnt hsu hnan2 hf hid hp ht
 
 /-! ### the deletion mark survives -/
 /-- the tombstone value of stored edge rows (`Points.Find(tombstone, "")` on keys normalised to "0") -/
